@@ -125,19 +125,20 @@ structure RW where
   acc : List ImgOut     -- `images`
   deriving DecidableEq, Repr
 
+/-- the `llm.ImageData` built for one image (and the new value of `imgPrompt != ""`) -/
+def imgData (cfg : Cfg) (id : Nat) (im : Img) (mm : Bool) : Except Err (ImgOut × Bool) :=
+  if cfg.mllama then
+    if cfg.proj < 2 then .ok (⟨id, im.src, false⟩, true)
+    else if im.ok then .ok (⟨id, im.src, true⟩, true)
+    else .error .preprocess
+  else .ok (⟨id, im.src, false⟩, mm)
+
 def stepImg (cfg : Cfg) (st : RW) (im : Img) : Except Err RW :=
-  let id := st.acc.length
-  let r : Except Err (ImgOut × Bool) :=
-    if cfg.mllama then
-      if cfg.proj < 2 then .ok (⟨id, im.src, false⟩, true)
-      else if im.ok then .ok (⟨id, im.src, true⟩, true)
-      else .error .preprocess
-    else .ok (⟨id, im.src, false⟩, st.mm)
-  match r with
+  match imgData cfg st.acc.length im st.mm with
   | .error e => .error e
   | .ok (o, mm) =>
-    if hasSlot st.body then .ok ⟨st.pre, mm, fillSlot id st.body, st.acc ++ [o]⟩
-    else .ok ⟨st.pre ++ [Piece.tag id], mm, st.body, st.acc ++ [o]⟩
+    if hasSlot st.body then .ok ⟨st.pre, mm, fillSlot st.acc.length st.body, st.acc ++ [o]⟩
+    else .ok ⟨st.pre ++ [Piece.tag st.acc.length], mm, st.body, st.acc ++ [o]⟩
 
 def foldImgs (cfg : Cfg) : List Img → RW → Except Err RW
   | [], st => .ok st
